@@ -30,6 +30,14 @@ class Ctx(object):
         self.tier = tier
         self.seed = seed
         self.t0 = time.time()
+        # scratch directories of runs that were killed are not cleaned up by anybody else
+        import glob
+        for old in glob.glob('/var/tmp/avelverif_*'):
+            try:
+                if time.time() - os.path.getmtime(old) > 8 * 3600:
+                    shutil.rmtree(old, ignore_errors=True)
+            except OSError:
+                pass
         self.scratch = tempfile.mkdtemp(prefix='avelverif_%s_' % prop, dir='/var/tmp')
         self.cfgs = configs.configs_for(tier)
         if only_cfgs:
